@@ -220,6 +220,10 @@ func (p *Policy) sanitize(r io.Reader, w io.Writer) error {
 		skipClosingTag           bool
 		closingTagToSkipStack    []string
 		mostRecentlyStartedToken string
+
+		// whether the tag that set mostRecentlyStartedToken was written to
+		// the output (only then may its raw text be written as it is)
+		mostRecentlyStartedTokenWritten bool
 	)
 
 	tokenizer := html.NewTokenizer(r)
@@ -260,6 +264,7 @@ func (p *Policy) sanitize(r io.Reader, w io.Writer) error {
 		case html.StartTagToken:
 
 			mostRecentlyStartedToken = normaliseElementName(token.Data)
+			mostRecentlyStartedTokenWritten = false
 
 			switch normaliseElementName(token.Data) {
 			case `script`:
@@ -314,6 +319,7 @@ func (p *Policy) sanitize(r io.Reader, w io.Writer) error {
 				if _, err := buff.WriteString(token.String()); err != nil {
 					return err
 				}
+				mostRecentlyStartedTokenWritten = true
 			}
 
 		case html.EndTagToken:
@@ -380,6 +386,7 @@ func (p *Policy) sanitize(r io.Reader, w io.Writer) error {
 			// A self-closing <script/> or <style/> still switches the tokenizer
 			// (and a browser) to raw text, so what follows is its content.
 			mostRecentlyStartedToken = normaliseElementName(token.Data)
+			mostRecentlyStartedTokenWritten = false
 
 			switch normaliseElementName(token.Data) {
 			case `script`:
@@ -422,9 +429,25 @@ func (p *Policy) sanitize(r io.Reader, w io.Writer) error {
 				if _, err := buff.WriteString(token.String()); err != nil {
 					return err
 				}
+				mostRecentlyStartedTokenWritten = true
 			}
 
 		case html.TextToken:
+
+			// Under AllowUnsafe the raw text of a script or style element is
+			// written as it is, but only if the element's tag was written. If
+			// the tag was removed (the element is not allowed, or it was written
+			// self-closing) its text is the content of a removed element and is
+			// ordinary text: escaped like any other, or skipped with the rest.
+			if p.allowUnsafe && !mostRecentlyStartedTokenWritten &&
+				(mostRecentlyStartedToken == `script` || mostRecentlyStartedToken == `style`) {
+				if !skipElementContent {
+					if _, err := buff.WriteString(token.String()); err != nil {
+						return err
+					}
+				}
+				continue
+			}
 
 			if !skipElementContent {
 				switch mostRecentlyStartedToken {
